@@ -313,6 +313,13 @@ class AbstractDataframeDataReader:
                 "Input should be a pandas.DataFrame not anything else."
             )
 
+        # a reader may be handed over again (`data_type` accepts a reader instance): every read starts
+        # from fresh containers, so that the result only holds the individuals of this dataframe
+        # and the objects returned for a previous dataframe are left alone
+        self.individuals = {}
+        self.iter_to_idx = {}
+        self.n_individuals = 0
+
         df = df.copy(deep=True)  # No modification on the input dataframe !
         df = self._clean_index(df)
         df = self._clean_numeric_data(df, drop_full_nan, warn_empty_column)
